@@ -1,26 +1,40 @@
 import AikenVerif.Drivers.Names
+import AikenVerif.Drivers.Cek
 /-!
 Native driver: line protocol.  Each request line is
   `<sub-command> <case-id> <fields…>`
 and each reply line is `<case-id> <reply>`.  One process serves every model.
+The only state is the cost model installed by `costmodel`.
 -/
 open AikenVerif
 
-def dispatch (sub : String) (args : List String) : String :=
-  match sub with
-  | "names" => Drivers.Names.handle args
-  | _ => "unknown-subcommand"
+structure DriverState where
+  costModel : Option CostModel := none
 
-partial def loop (h : IO.FS.Stream) (out : IO.FS.Stream) : IO Unit := do
+def dispatch (st : DriverState) (sub : String) (args : List String) : DriverState × String :=
+  match sub with
+  | "names" => (st, Drivers.Names.handle args)
+  | "costmodel" =>
+    let (cm, reply) := Drivers.Cek.handleCostModel args
+    ({ st with costModel := cm }, reply)
+  | "cek" => (st, Drivers.Cek.handleCek st.costModel args)
+  | "spec" => (st, Drivers.Cek.handleSpec args)
+  | _ => (st, "unknown-subcommand")
+
+partial def loop (h : IO.FS.Stream) (out : IO.FS.Stream) (st : DriverState) : IO Unit := do
   let line ← h.getLine
   if line.isEmpty then return ()
   let ws := (line.trimAscii.toString.splitOn " ").filter (· ≠ "")
   match ws with
-  | sub :: id :: rest => out.putStrLn (id ++ " " ++ dispatch sub rest)
-  | _ => out.putStrLn "? bad-line"
-  loop h out
+  | sub :: id :: rest =>
+    let (st', reply) := dispatch st sub rest
+    out.putStrLn (id ++ " " ++ reply)
+    loop h out st'
+  | _ =>
+    out.putStrLn "? bad-line"
+    loop h out st
 
 def main : IO Unit := do
   let out ← IO.getStdout
-  loop (← IO.getStdin) out
+  loop (← IO.getStdin) out {}
   out.flush
